@@ -73,7 +73,7 @@ CLAIMS = {
 NOTES = {
  'C02': "degrees with irrational nodes (radau d>=3, legendre d>=2) are not predicted numerically yet",
  'C03': "DirectCollocation is judged on the polynomial families only (exact with 4 points, order 3/4 with 2 points); asymptotic rates for general smooth ODEs, schemes with irrational nodes and 'within the requested tolerance' as such are not decided; CVODES quadratures are only required to be within 5e-2 (no error control by default)",
- 'C17': "SplineMethod with grid='inf' constraints, vector-valued chains and mixed chain lengths in one problem are not covered; equality of optima is a solver-level relation on three problems",
+ 'C17': "SplineMethod: vector-valued chains and mixed chain lengths in one problem are not covered (grid='inf' rows are, for affine constraints on one chain member); equality of optima is a solver-level relation on three problems",
  'C19': "scaled states/controls and two cloned stages are exercised on thin slices (one model each); matrix-valued arguments are not",
  'C08': "collocation degrees with irrational nodes and the convergence clause are not covered; DC probes are generic (not feasible), so the final sample of the last step is excluded there",
  'C15': "DirectCollocation degree 4 (irrational nodes) is not predicted numerically; tightness as M grows is not decided",
